@@ -116,6 +116,8 @@ def base_cases(ctx, seed, tier):
         out.append(("rel", hexs(a) + " " + hexs(b)))
     out.append(("join", "NULL " + hexs("b")))
     out.append(("join", hexs("a") + " NULL"))
+    for n in (60, 127, 128, 129, 255, 256, 257, 258, 511, 512, 513, 1023, 1024, 1025):
+        out.append(("fs", "mkdirs %d" % n))
     for op in ("mkdirs", "canon", "cwd", "tmpdir", "mktmp", "copy 5000", "copyx 0", "copyx 511", "copyx 513", "copyx 70000",
                "equals 0", "equals 4095", "equals 4096", "equals 9000", "equals 9000 8999", "equals 9000 0",
                "equals 600 512"):
